@@ -37,7 +37,7 @@ ASSUMPTIONS = ["the two data files emptied by the environment (SimSun_bad_len9, 
                "quick checks shipped data up to length 6, thorough every length"]
 REQUIRED = ["calls.write_bisc_files", "calls.read_bisc_file", "calls.PinWords.store_dfa_for_perm", "calls.PinWords.load_dfa_for_perm",
             "history.overwrites", "history.malformed_reads", "history.reads_decided", "dfa.loads_decided", "shipped.blocks_verified",
-            "shipped.files", "audit.open_events", "emptied_files.reported_invalid", "faults.injected", "dfa.threaded_rounds", "aliasing.read_results_mutated"]
+            "shipped.files", "audit.open_events", "emptied_files.reported_invalid", "faults.injected", "dfa.threaded_rounds", "aliasing.read_results_mutated", "history.convention_change_sequences", "history.shipped_names_missing"]
 MIN_NONTRIVIAL = 60
 CTX = None
 MON = None
@@ -68,7 +68,13 @@ PROPS = {
     "all": (lambda p: True, lambda t: True),
     "none": (lambda p: False, lambda t: False),
     "involution": (lambda p: p.is_involution(), lambda t: all(t[t[i]] == i for i in range(len(t)))),
+    # properties that differ only in their convention for very short permutations (they agree on every length >= 2)
+    "dec": (lambda p: p.is_decreasing(), lambda t: all(a > b for a, b in zip(t, t[1:]))),
+    "dec_ge2": (lambda p: len(p) >= 2 and p.is_decreasing(), lambda t: len(t) >= 2 and all(a > b for a, b in zip(t, t[1:]))),
+    "len_ge2": (lambda p: len(p) >= 2, lambda t: len(t) >= 2),
+    "len_ge1_av231": (lambda p: len(p) >= 1 and p.avoids(Perm((1, 2, 0))), lambda t: len(t) >= 1 and not C.contains(t, (1, 2, 0))),
 }
+CONVENTION_PAIRS = [("dec", "dec_ge2"), ("dec_ge2", "dec"), ("all", "len_ge2"), ("len_ge2", "all"), ("av231", "len_ge1_av231"), ("len_ge1_av231", "av231")]
 
 
 def dataset(propname, n):
@@ -461,6 +467,20 @@ def run(ctx, spec):
             name, n = rng.choice(names), rng.randint(1, 4)
             p1, p2 = rng.sample(list(PROPS), 2)
             ops += [["write", n, p1, name], ["write", n, p2, name], ["read", name, "good", n], ["read", name, "bad", n]]
+        if rng.random() < 0.4:
+            # the same data set written for consecutive lengths with two properties that agree on the longer permutations
+            # and differ only on the very short ones (a changed convention): the later files must follow the later property
+            name, n = rng.choice(names), rng.randint(3, 4)
+            a, b = rng.choice(CONVENTION_PAIRS)
+            ops += [["write", n - 1, a, name], ["write", n, b, name], ["read", name, "good", n], ["read", name, "bad", n], ["read", name, "good", n - 1]]
+            ctx.count("history.convention_change_sequences")
+        if rng.random() < 0.4:
+            # files that were never written but are named like data sets shipped with the library must read as missing
+            ship = rng.choice(sorted(SHIPPED))
+            ops.insert(rng.randint(0, len(ops)), ["read", ship, rng.choice(["good", "bad"]), rng.choice([8, 8, 9, 3])])
+            if rng.random() < 0.5:
+                ops += [["write", 2, "av231", ship], ["read", ship, "good", 8], ["read", ship, "good", 2]]
+            ctx.count("history.shipped_names_missing")
         pre = rng.random() < 0.3
         if pre:
             ops += [["read", "zz", "good", 2], ["read", "stale", "good", 3]]
